@@ -28,6 +28,7 @@ ASSUMES = [
     "items assigned by an operation are fresh objects (an assignment that re-inserts the focused object is not judged)",
     "focus-changed callback is judged only between non-empty states (entering/leaving the empty list has no position to report)",
     "'item following the removed ones' = first surviving item after the old focus position, else the last item",
+    "a non-integer focus assignment must be rejected with TypeError or IndexError (either); list operations must raise exactly what list raises",
 ]
 
 
@@ -439,6 +440,11 @@ class Session:
         focs = [e for e in self.log if e[0] == "foc"]
         ok = True
         # --- errors
+        if op[0] == "focus" and exc_m is not None and exc_i is not None and not isinstance(op[1], int):
+            # assigning a non-integer focus is not a list operation: the statement only asks that an invalid
+            # position is rejected; TypeError (list-index style) and IndexError (documented for containers) both are
+            if isinstance(exc_i, (TypeError, IndexError)):
+                exc_m = exc_i
         if (exc_m is None) != (exc_i is None) or (exc_m is not None and type(exc_m) is not type(exc_i)):
             changed = not (len(after_i) == n and all(a is b for a, b in zip(after_i, before)))
             self.viol(
